@@ -98,11 +98,12 @@ def main() -> int:
             info[j["id"]] = {"label": label, "cfg": {"literal_enums": le}, "features": {"union_models", label.split(":")[1]}}
             jobs.append(j)
     for k, (label, d) in enumerate(docs.interplay_docs()):
-        if not d["components"]["schemas"] or (quick and k % 3 and "enum_same_class_name" not in label and "redeclared_required" not in label):
+        if not d["components"]["schemas"] or (quick and k % 3 and "enum_same_class_name" not in label and "redeclared_required" not in label and "single_member_union" not in label):
             continue
-        j = run.job(d, want=["manifest"], plan={"fn": "models", "args": {"seed": seed(), "per_model": 8}}, cfg={"literal_enums": k % 2 == 0})
-        info[j["id"]] = {"label": label, "cfg": {"literal_enums": k % 2 == 0}, "features": {"interplay", label.split(":")[1].rsplit("_", 1)[0]}}
-        jobs.append(j)
+        for le in ((False, True) if "enum_same_class_name" in label else (k % 2 == 0,)):
+            j = run.job(d, want=["manifest"], plan={"fn": "models", "args": {"seed": seed(), "per_model": 12 if "enum_same_class_name" in label else 8}}, cfg={"literal_enums": le})
+            info[j["id"]] = {"label": label, "cfg": {"literal_enums": le}, "features": {"interplay", label.split(":")[1].rsplit("_", 1)[0]}}
+            jobs.append(j)
     n = 220 if quick else 5000
     for i in range(n):
         d, feats = docs.random_doc(("C02", seed(), i), hostile=[0, 0, 0.3][i % 3])
